@@ -331,10 +331,11 @@ def _run_group(g, r, sdir, log):
         chk += ['--cvc5']
     elif g.solver == 'z3':
         chk += ['--z3']
-    elif g.solver == 'kissat' or (g.solver == 'sat' and g.kind != 'B' and os.environ.get('VF_SAT', 'kissat') == 'kissat'):
-        # default propositional back end of the proved / step groups: kissat (measured 5-50x faster than the
-        # built-in minisat2 on these instances; hash.mul: 14 s against no result in 900 s).  Bounded groups are
-        # concrete executions with trivial solver work and keep the built-in solver.
+    elif (g.solver == 'kissat' and os.environ.get('VF_SAT') != 'minisat') or (g.solver == 'sat' and g.kind != 'B' and os.environ.get('VF_SAT') == 'kissat'):
+        # kissat (external, non-incremental) is chosen per group where measured faster than the built-in
+        # incremental minisat2: single hard UNSAT instances (hash.mul: 14 s against no result in 900 s;
+        # array.alloc 54 s against 460 s; hash.get_bucket 31 s against 25 min).  Groups with many shards /
+        # many failing canaries are faster on the incremental built-in solver (string.prep_insert: 3x).
         chk += ['--external-sat-solver', 'kissat']
     r.cmds.append(' '.join(chk))
     shard_args = [[]]
